@@ -550,7 +550,8 @@ pub fn months(mode: &str, seed: u64, out: &str) {
     let py_all = PyNamed(all.clone());
     let offsets: Vec<i32> = {
         let mut v: Vec<i32> = (-40..=40).collect();
-        for k in [48, 60, 120, 240, 1200] {
+        // (offsets of 128 years and more: the whole-year part no longer fits eight bits)
+        for k in [48, 60, 120, 240, 1200, 1536, 1548, 2400] {
             for j in [-1, 0, 1, 5, 11] {
                 v.push(k + j);
                 v.push(-(k + j));
